@@ -399,11 +399,71 @@ func stressMain(args []string) {
 		if stuck { // the stuck goroutines stay behind: no point in going on
 			break
 		}
+		for _, msg := range stressFloor(*seed*1000+int64(round), *workers, *opsPer, round%2 == 0, []int{3, 64, 1, 700}[round%4]) {
+			fmt.Printf("STRESS-FAIL round=%d seed=%d %s\n", round, *seed, msg)
+			bad++
+		}
 	}
 	fmt.Printf("STRESS-DONE rounds=%d workers=%d ops=%d failures=%d\n", *rounds, *workers, *opsPer, bad)
 	if bad > 0 {
 		os.Exit(1)
 	}
+}
+
+// stressFloor: "the values they return match that sequential execution". The stack starts with `floor` elements and every worker
+// alternates Push and Pop, its own Push first: in every sequential order consistent with the workers' own orders the stack holds
+// at least floor+1 elements (all non-nil) whenever a Pop takes place, so every Pop answers (value, true); nothing is lost either:
+// afterwards exactly `floor` elements remain.
+func stressFloor(seed int64, workers, opsPer int, fifo bool, floor int) (fails []string) {
+	s := newStack(4, 0)
+	s.SetMutex()
+	if fifo {
+		s.SetFIFO(true)
+	}
+	for i := 0; i < floor; i++ {
+		s.Push(-1 - i)
+	}
+	var ctr, refused int64
+	var panics int32
+	var wg sync.WaitGroup
+	done := make(chan struct{})
+	for w := 0; w < workers; w++ {
+		wg.Add(1)
+		go func(w int) {
+			defer wg.Done()
+			defer func() {
+				if recover() != nil {
+					atomic.AddInt32(&panics, 1)
+				}
+			}()
+			for k := 0; k < opsPer; k++ {
+				s.Push(int(atomic.AddInt64(&ctr, 1)))
+				if k%7 == 3 {
+					s.Reverse()
+				}
+				if _, ok := s.Pop(); !ok {
+					atomic.AddInt64(&refused, 1)
+				}
+			}
+		}(w)
+	}
+	go func() { wg.Wait(); close(done) }()
+	select {
+	case <-done:
+	case <-time.After(20 * time.Second):
+		return []string{"DEADLOCK: floor workers did not finish within 20s"}
+	}
+	if panics > 0 {
+		fails = append(fails, fmt.Sprintf("PANIC in %d workers", panics))
+	}
+	if refused > 0 {
+		fails = append(fails, fmt.Sprintf("Pop answered (nil,false) %d times of %d on a stack (fifo=%v) that holds at least %d elements in every sequential order",
+			refused, workers*opsPer, fifo, floor+1))
+	}
+	if n := s.Len(); n != floor+int(refused) {
+		fails = append(fails, fmt.Sprintf("Len %d afterwards, expected %d (floor) + %d (refused pops)", n, floor, refused))
+	}
+	return
 }
 
 // stressRound: every value pushed or inserted is unique. Without Replace/Reset nothing may vanish:
